@@ -141,6 +141,7 @@ def run(ctx):
     resets = 0
     wipes = 0              # times the client's seed changed from one list to another (wipeOnSeedChange fired)
     n_checked_conv = 0
+    n_restart = 0
 
     known_sig = {}         # signature -> True if it matches an open known finding
     oracle_known = Counter()
@@ -162,6 +163,18 @@ def run(ctx):
         if kind == "init":
             hist_start, d, prev, t0 = i, op["def"], None, op["t0"]
             epoch_max, accepted, sub_hist, resets, wipes = 0, {}, {}, 0, 0
+            continue
+        if kind == "get":
+            classes["get"] += 1
+            m = re.match(r"^get after=(\d+) seed=(\S+) ts=(\d+) \[(.*)\]$", line)
+            if not m or prev is None:
+                if not m:
+                    report("C16:get-failed", "server Get failed: " + line[:100], i)
+                continue
+            got = {tuple(x.split(":", 1)) for x in m.group(4).split()}
+            want = {(str(r["ts"]), r["id"]) for r in prev["S"]["rows"] if r["ts"] > int(m.group(1))}
+            if got != want or int(m.group(3)) != prev["S"]["ts"] or m.group(2) != prev["S"]["seed"]:
+                report("C16:get-result-wrong", f"Get(after={m.group(1)}) returned {sorted(got)} ts={m.group(3)}, list has {sorted(want)} ts={prev['S']['ts']}", i)
             continue
         st = parse_line(line)
         if st is None:
@@ -227,6 +240,11 @@ def run(ctx):
         for r in C["rows"]:
             if r["validated"] and not accepted.get(r["id"], (None, {}))[1].get("verifyC"):
                 report("C16:validated-without-verification", "client row is validated although the client's verifier rejects it", i)
+        # a poll that meets another seed than the replica's leaves the replica empty at timestamp 0 (starting over)
+        if kind == "poll" and prev and prev["C"]["seed"] not in ("-", prev["S"]["seed"]):
+            n_restart += 1
+            if C["rows"] or C["ts"] != 0 or C["seed"] != S["seed"]:
+                report("C16:no-restart-after-seed-change", "a poll that met a new seed did not leave an empty replica at timestamp 0 with the new seed", i)
         # convergence after quiescent polls
         if kind == "poll" and op.get("quiet", 0) >= 2:
             n_checked_conv += 1
@@ -287,5 +305,5 @@ def run(ctx):
     if oracle_known:
         ctx.notes.append("oracle hits explained by open known findings: " + "; ".join(f"{k} x{v}" for k, v in oracle_known.items()))
     ctx.cov["input_distribution"] = {"op_classes": dict(classes.most_common()), "results": dict(results.most_common()),
-                                     "histories": sum(1 for o in ops if o.get("op") == "init"), "convergence_checks": n_checked_conv}
+                                     "histories": sum(1 for o in ops if o.get("op") == "init"), "convergence_checks": n_checked_conv, "seed_change_restarts": n_restart}
     ctx.cov["samples"] = [ops_txt[1][:300] if len(ops_txt) > 1 else "", impl[-1][:300] if impl else ""]
